@@ -29,9 +29,30 @@ open W2c2Verif Model Gen Spec
     (s.endBlock h bt ls).stack = s.stack.take h ++ bt.toList := by
   cases bt <;> rfl
 
+@[simp] theorem St.declare_declLen (s : St) (sl : Slot) : (s.declare sl).declLen = max s.declLen (sl.idx + 1) := rfl
+@[simp] theorem St.push_declLen (s : St) (t : VT) : (s.push t).declLen = s.declLen := rfl
+@[simp] theorem St.drop_declLen (s : St) (n : Nat) : (s.drop n).declLen = s.declLen := rfl
+theorem St.endBlock_declLen_ge (s : St) (h : Nat) (bt : Option VT) (ls : List Label) : s.declLen ≤ (s.endBlock h bt ls).declLen := by
+  cases bt with
+  | none => exact Nat.le_refl _
+  | some t => show s.declLen ≤ max s.declLen (h + 1); omega
+theorem St.endBlock_declLen_some (s : St) (h : Nat) (t : VT) (ls : List Label) : h + 1 ≤ (s.endBlock h (some t) ls).declLen := by
+  show h + 1 ≤ max s.declLen (h + 1); omega
+
+theorem St.top_spec {s : St} {k : Nat} {sl : Slot} (h : s.top k = some sl) :
+    k < s.stack.length ∧ sl.idx = s.stack.length - 1 - k ∧ s.stack[s.stack.length - 1 - k]? = some sl.ty := by
+  unfold St.top at h
+  split at h
+  · rename_i hk
+    have hi : s.stack.length - 1 - k < s.stack.length := by omega
+    simp only [List.getElem?_eq_getElem hi, Option.map_some, Option.some.injEq] at h
+    subst h
+    exact ⟨hk, rfl, by simp [List.getElem?_eq_getElem hi]⟩
+  · cases h
+
 theorem WF.of_same {s s' : St} (hw : WF s) (hl : s'.labels = s.labels) (hn : s.next ≤ s'.next)
-    (hh : s.base ≤ s'.stack.length) : WF s' := by
-  refine ⟨hl ▸ hw.sorted, ?_, ?_, hl ▸ hw.nonempty⟩
+    (hh : s.base ≤ s'.stack.length) (hd : s'.stack.length ≤ s'.declLen) : WF s' := by
+  refine ⟨hl ▸ hw.sorted, ?_, ?_, hl ▸ hw.nonempty, hd⟩
   · intro lab hm; rw [hl] at hm; exact Nat.le_trans (hw.height_le_base hm) hh
   · intro lab hm; rw [hl] at hm; exact Nat.lt_of_lt_of_le (hw.fresh lab hm) hn
 
@@ -40,25 +61,42 @@ structure Static (s s' : St) : Prop where
   next : s.next ≤ s'.next
   take : s'.stack.take s.base = s.stack.take s.base
   len : s.base ≤ s'.stack.length
+  declMono : s.declLen ≤ s'.declLen
   wf : WF s'
 
 theorem Static.base {s s' : St} (h : Static s s') : s'.base = s.base := base_eq_of_labels h.labels
 
 theorem Static.trans {s s1 s2 : St} (h1 : Static s s1) (h2 : Static s1 s2) : Static s s2 := by
   have hb := h1.base
-  refine ⟨h2.labels.trans h1.labels, Nat.le_trans h1.next h2.next, ?_, ?_, h2.wf⟩
+  refine ⟨h2.labels.trans h1.labels, Nat.le_trans h1.next h2.next, ?_, ?_, Nat.le_trans h1.declMono h2.declMono, h2.wf⟩
   · have := h2.take; rw [hb] at this; exact this.trans h1.take
   · have := h2.len; rw [hb] at this; exact this
 
 /-- the shape of every non-control instruction: pop down to `k ≥ base`, push `extra` -/
 theorem Static.simple {s s' : St} (hw : WF s) (hl : s'.labels = s.labels) (hn : s.next ≤ s'.next) (k : Nat) (extra : List VT)
-    (hk : s.base ≤ k) (hk' : k ≤ s.stack.length) (hs : s'.stack = s.stack.take k ++ extra) : Static s s' := by
+    (hk : s.base ≤ k) (hk' : k ≤ s.stack.length) (hs : s'.stack = s.stack.take k ++ extra)
+    (hdm : s.declLen ≤ s'.declLen) (hd : s'.stack.length ≤ s'.declLen) : Static s s' := by
   have hlen : s.base ≤ s'.stack.length := by rw [hs]; simp; omega
-  refine ⟨hl, hn, ?_, hlen, hw.of_same hl hn hlen⟩
+  refine ⟨hl, hn, ?_, hlen, hdm, hw.of_same hl hn hlen hd⟩
   rw [hs, List.take_append_of_le_length (by simp; omega), List.take_take, Nat.min_eq_left hk]
 
 theorem Static.refl {s : St} (hw : WF s) : Static s s :=
-  Static.simple hw rfl (Nat.le_refl _) s.stack.length [] hw.base_le_height (Nat.le_refl _) (by simp)
+  Static.simple hw rfl (Nat.le_refl _) s.stack.length [] hw.base_le_height (Nat.le_refl _) (by simp) (Nat.le_refl _) hw.decl
+
+theorem gotoCopy_declLen {s s' : St} {lab : Label} {cp : Option (Slot × Slot)} (h : gotoCopy s lab = some (s', cp)) :
+    s.declLen ≤ s'.declLen ∧ (lab.type.isSome → 1 ≤ s'.stack.length) := by
+  unfold gotoCopy at h
+  split at h
+  · rename_i hty; cases h; exact ⟨Nat.le_refl _, by simp [hty]⟩
+  · split at h
+    · cases h
+    · rename_i src hsrc
+      have hpos : 1 ≤ s.stack.length := by have := (St.top_spec hsrc).1; omega
+      split at h
+      · cases h
+      · split at h
+        · cases h; exact ⟨by simp; omega, fun _ => hpos⟩
+        · cases h; exact ⟨Nat.le_refl _, fun _ => hpos⟩
 
 theorem gotoCopy_same {s s' : St} {lab : Label} {cp : Option (Slot × Slot)} (h : gotoCopy s lab = some (s', cp)) :
     s'.stack = s.stack ∧ s'.labels = s.labels ∧ s'.next = s.next := by
@@ -108,7 +146,7 @@ theorem brTable_fold_same (ls : List Nat) : ∀ (s0 : St) (cs : List (Option (Sl
 
 theorem WF.enter {s : St} (hw : WF s) (bt : Option VT) :
     WF { s with labels := s.labels ++ [⟨s.next, s.stack.length, bt⟩], next := s.next + 1 } := by
-  refine ⟨?_, ?_, ?_, by simp⟩
+  refine ⟨?_, ?_, ?_, by simp, hw.decl⟩
   · rw [List.pairwise_append]
     refine ⟨hw.sorted, by simp, ?_⟩
     intro a ha b hb
@@ -129,12 +167,24 @@ theorem St.base_enter (s : St) (lab : Label) (n : Nat) : ({ s with labels := s.l
   simp [St.base]
 
 theorem Static.pushes {s s' : St} (hw : WF s) (hl : s'.labels = s.labels) (hn : s.next ≤ s'.next) (extra : List VT)
-    (hs : s'.stack = s.stack ++ extra) : Static s s' :=
-  Static.simple hw hl hn s.stack.length extra hw.base_le_height (Nat.le_refl _) (by simp [hs])
+    (hs : s'.stack = s.stack ++ extra) (hdm : s.declLen ≤ s'.declLen) (hd : s'.stack.length ≤ s'.declLen) : Static s s' :=
+  Static.simple hw hl hn s.stack.length extra hw.base_le_height (Nat.le_refl _) (by simp [hs]) hdm hd
 
 theorem Static.pops {s s' : St} (hw : WF s) (hl : s'.labels = s.labels) (hn : s.next ≤ s'.next) (k : Nat)
-    (hk : s.base ≤ k) (hk' : k ≤ s.stack.length) (hs : s'.stack = s.stack.take k) : Static s s' :=
-  Static.simple hw hl hn k [] hk hk' (by simp [hs])
+    (hk : s.base ≤ k) (hk' : k ≤ s.stack.length) (hs : s'.stack = s.stack.take k)
+    (hdm : s.declLen ≤ s'.declLen) (hd : s'.stack.length ≤ s'.declLen) : Static s s' :=
+  Static.simple hw hl hn k [] hk hk' (by simp [hs]) hdm hd
+
+set_option hygiene false in
+/-- arithmetic side conditions of the static lemmas: heights, declared-slot counts -/
+macro "static_arith" : tactic => `(tactic| (
+  have hdecl := hw.decl
+  try have t0 := St.top_spec ‹s.top 0 = some _›
+  try have t1 := St.top_spec ‹s.top 1 = some _›
+  try have t2 := St.top_spec ‹s.top 2 = some _›
+  simp only [St.height, St.declare_stack, St.declare_base, St.declare_declLen, St.push_stack, St.push_declLen, St.drop_stack,
+    St.drop_declLen, List.length_append, List.length_take, List.length_cons, List.length_nil, Nat.not_lt] at *
+  omega))
 
 set_option hygiene false in
 /-- closes the `.ok` branch of a non-control instruction -/
@@ -144,10 +194,13 @@ macro "static_fin" : tactic => `(tactic| (
   obtain ⟨rfl, _, _⟩ := hc
   first
   | exact Static.refl hw
-  | exact Static.pushes hw rfl (Nat.le_refl _) _ rfl
-  | (refine Static.simple hw rfl (Nat.le_refl _) _ _ ?_ ?_ rfl <;> (simp only [St.height, St.declare_stack, St.declare_base, Nat.not_lt] at * <;> omega))
-  | (refine Static.pops hw rfl (Nat.le_refl _) _ ?_ ?_ rfl <;> (simp only [St.height, St.declare_stack, St.declare_base, Nat.not_lt] at * <;> omega))
-  | (refine Static.simple hw rfl (Nat.le_refl _) s.stack.length [] hw.base_le_height (Nat.le_refl _) ?_; simp; done)))
+  | (refine Static.pushes hw rfl (Nat.le_refl _) _ rfl ?_ ?_ <;> static_arith)
+  | (refine Static.simple hw rfl (Nat.le_refl _) _ _ ?_ ?_ rfl ?_ ?_ <;> static_arith)
+  | (refine Static.pops hw rfl (Nat.le_refl _) _ ?_ ?_ rfl ?_ ?_ <;> static_arith)
+  | (refine Static.simple hw rfl (Nat.le_refl _) s.stack.length [] hw.base_le_height (Nat.le_refl _) ?_ ?_ ?_
+     · simp
+     · static_arith
+     · static_arith)))
 
 set_option hygiene false in
 /-- splits `hc` until every branch is an error (closed) or the final `.ok` -/
@@ -155,6 +208,50 @@ macro "static_simple" : tactic => `(tactic| (
   simp only [compileInstr, bind, Except.bind] at hc
   repeat' (split at hc)
   all_goals (first | (cases hc; done) | static_fin)))
+
+theorem endBlock_decl (sB : St) (h : Nat) (bt : Option VT) (ls : List Label) (hd : sB.stack.length ≤ sB.declLen) :
+    (sB.endBlock h bt ls).stack.length ≤ (sB.endBlock h bt ls).declLen := by
+  cases bt with
+  | none =>
+    show (sB.stack.take h ++ []).length ≤ sB.declLen
+    simp; omega
+  | some t =>
+    have := St.endBlock_declLen_some sB h t ls
+    simp only [St.endBlock_stack, List.length_append, List.length_take, Option.toList, List.length_cons, List.length_nil]
+    omega
+
+theorem brTable_fold_declLen (ls : List Nat) : ∀ (s0 : St) (cs : List (Option (Slot × Slot) × Nat)) (s1 : St) (cases : List (Option (Slot × Slot) × Nat)),
+    ls.foldl brTableStep (.ok (s0, cs)) = .ok (s1, cases) → s0.declLen ≤ s1.declLen := by
+  induction ls with
+  | nil => intro s0 cs s1 cases h; simp at h; obtain ⟨rfl, _⟩ := h; exact Nat.le_refl _
+  | cons l rest ih =>
+    intro s0 cs s1 cases h
+    simp only [List.foldl_cons] at h
+    cases hstep : brTableStep (.ok (s0, cs)) l with
+    | error e =>
+      rw [hstep] at h
+      have : ∀ (xs : List Nat), xs.foldl brTableStep (.error e) = .error e := by
+        intro xs; induction xs with
+        | nil => rfl
+        | cons x xs ihx => simp only [List.foldl_cons]; exact ihx
+      rw [this] at h; cases h
+    | ok res =>
+      obtain ⟨sa, ca⟩ := res
+      rw [hstep] at h
+      have h1 := ih sa ca s1 cases h
+      simp only [brTableStep, bind, Except.bind] at hstep
+      cases hlab : s0.label l with
+      | none => simp [hlab] at hstep
+      | some lab =>
+        cases hg : gotoCopy s0 lab with
+        | none => simp [hlab, hg] at hstep
+        | some r =>
+          obtain ⟨sb, cp⟩ := r
+          simp only [hlab, hg] at hstep
+          injection hstep with hstep
+          simp only [Prod.mk.injEq] at hstep
+          obtain ⟨rfl, _⟩ := hstep
+          exact Nat.le_trans (gotoCopy_declLen hg).1 h1
 
 mutual
 theorem seq_static (ctx : Ctx) : ∀ (is : List EInstr) (s s' : St) (out : List MStmtC) (dead : Bool),
@@ -212,6 +309,7 @@ theorem instr_static (ctx : Ctx) : ∀ (i : EInstr) (s s' : St) (out : List MStm
         rw [hbase] at htake
         simp only [St.height] at htake
         refine Static.simple hw (by simp) (by simp; have := hB.next; simp at this; omega) s.stack.length bt.toList hw.base_le_height (Nat.le_refl _) ?_
+          (Nat.le_trans hB.declMono (St.endBlock_declLen_ge _ _ _ _)) (endBlock_decl _ _ _ _ hB.wf.decl)
         simp [St.height, htake]
   | .unreachable, s, s', out, dead, hc, hw => by static_simple
   | .drop, s, s', out, dead, hc, hw => by static_simple
@@ -251,6 +349,7 @@ theorem instr_static (ctx : Ctx) : ∀ (i : EInstr) (s s' : St) (out : List MStm
         rw [hbase] at htake
         simp only [St.height] at htake
         refine Static.simple hw (by simp) (by simp; have := hB.next; simp at this; omega) s.stack.length bt.toList hw.base_le_height (Nat.le_refl _) ?_
+          (Nat.le_trans hB.declMono (St.endBlock_declLen_ge _ _ _ _)) (endBlock_decl _ _ _ _ hB.wf.decl)
         simp [St.height, htake]
   | .br l, s, s', out, dead, hc, hw => by
     simp only [compileInstr, bind, Except.bind] at hc
@@ -261,7 +360,8 @@ theorem instr_static (ctx : Ctx) : ∀ (i : EInstr) (s s' : St) (out : List MStm
     simp only [Prod.mk.injEq] at hc
     obtain ⟨rfl, _, _⟩ := hc
     obtain ⟨g1, g2, g3⟩ := gotoCopy_same hg
-    exact Static.pushes hw g2 (Nat.le_of_eq g3.symm) [] (by simp [g1])
+    have hdm := (gotoCopy_declLen hg).1
+    exact Static.pushes hw g2 (Nat.le_of_eq g3.symm) [] (by simp [g1]) hdm (by rw [g1]; exact Nat.le_trans hw.decl hdm)
   | .ret, s, s', out, dead, hc, hw => by
     simp only [compileInstr, bind, Except.bind] at hc
     repeat' (split at hc)
@@ -271,7 +371,8 @@ theorem instr_static (ctx : Ctx) : ∀ (i : EInstr) (s s' : St) (out : List MStm
     simp only [Prod.mk.injEq] at hc
     obtain ⟨rfl, _, _⟩ := hc
     obtain ⟨g1, g2, g3⟩ := gotoCopy_same hg
-    exact Static.pushes hw g2 (Nat.le_of_eq g3.symm) [] (by simp [g1])
+    have hdm := (gotoCopy_declLen hg).1
+    exact Static.pushes hw g2 (Nat.le_of_eq g3.symm) [] (by simp [g1]) hdm (by rw [g1]; exact Nat.le_trans hw.decl hdm)
   | .brIf l, s, s', out, dead, hc, hw => by
     simp only [compileInstr, bind, Except.bind] at hc
     repeat' (split at hc)
@@ -282,7 +383,10 @@ theorem instr_static (ctx : Ctx) : ∀ (i : EInstr) (s s' : St) (out : List MStm
     simp only [Prod.mk.injEq] at hc
     obtain ⟨rfl, _, _⟩ := hc
     obtain ⟨g1, g2, g3⟩ := gotoCopy_same hg
-    refine Static.pops hw (by simp [g2]) (by simp [g3]) (s.stack.length - 1) ?_ (by omega) (by simp [g1])
+    have hdm := (gotoCopy_declLen hg).1
+    simp only [St.drop_declLen] at hdm
+    refine Static.pops hw (by simp [g2]) (by simp [g3]) (s.stack.length - 1) ?_ (by omega) (by simp [g1]) hdm
+      (by rw [g1]; have := hw.decl; simp; omega)
     simp [St.height] at hcond; omega
   | .brTable ls d, s, s', out, dead, hc, hw => by
     simp only [compileInstr, bind, Except.bind] at hc
@@ -297,7 +401,10 @@ theorem instr_static (ctx : Ctx) : ∀ (i : EInstr) (s s' : St) (out : List MStm
     obtain ⟨g1, g2, g3⟩ := gotoCopy_same hg
     obtain ⟨f1, f2, f3⟩ := brTable_fold_same _ _ _ _ _ hfold
     simp only [St.drop_stack, St.drop_labels, St.drop_next] at f1 f2 f3
-    refine Static.pops hw (by simp [g2, f2]) (by simp [g3, f3]) (s.stack.length - 1) ?_ (by omega) (by simp [g1, f1])
+    have hdm := Nat.le_trans (brTable_fold_declLen _ _ _ _ _ hfold) (gotoCopy_declLen hg).1
+    simp only [St.drop_declLen] at hdm
+    refine Static.pops hw (by simp [g2, f2]) (by simp [g3, f3]) (s.stack.length - 1) ?_ (by omega) (by simp [g1, f1]) hdm
+      (by rw [g1, f1]; have := hw.decl; simp; omega)
     simp [St.height] at hcond; omega
   | .ite bt thn els, s, s', out, dead, hc, hw => by
     rw [compileInstr] at hc
@@ -309,7 +416,7 @@ theorem instr_static (ctx : Ctx) : ∀ (i : EInstr) (s s' : St) (out : List MStm
       · cases hc
       · rename_i hcond
         have hge : s.base + 1 ≤ s.stack.length := by simp [St.height] at hcond; omega
-        have hw0 : WF (s.drop 1) := hw.of_same rfl (Nat.le_refl _) (by simp; omega)
+        have hw0 : WF (s.drop 1) := hw.of_same rfl (Nat.le_refl _) (by simp; omega) (by have := hw.decl; simp; omega)
         split at hc
         · cases hc
         · rename_i res hcT
@@ -337,6 +444,7 @@ theorem instr_static (ctx : Ctx) : ∀ (i : EInstr) (s s' : St) (out : List MStm
                 simp only [Prod.mk.injEq] at hc
                 obtain ⟨rfl, _, _⟩ := hc
                 refine Static.simple hw (by simp) (by simp; omega) (s.stack.length - 1) bt.toList (by omega) (by omega) ?_
+                  (Nat.le_trans hT.declMono (St.endBlock_declLen_ge _ _ _ _)) (endBlock_decl _ _ _ _ hT.wf.decl)
                 simp [St.height, hmin, hTtake]
             | some els =>
               simp only [] at hc
@@ -353,6 +461,7 @@ theorem instr_static (ctx : Ctx) : ∀ (i : EInstr) (s s' : St) (out : List MStm
                   have hbT : sT.base = s.stack.length - 1 := by rw [hT.base, hbase]; simp [St.height, hmin]
                   have hwE0 : WF { sT with stack := sT.stack.take (s.drop 1).height } :=
                     hT.wf.of_same rfl (Nat.le_refl _) (by simp [St.height, hmin, hbT]; omega)
+                      (by have := hT.wf.decl; simp only [List.length_take]; omega)
                   have hE := seq_static ctx els _ sE outE deadE hcE hwE0
                   have hbE0 : ({ sT with stack := sT.stack.take (s.drop 1).height } : St).base = s.stack.length - 1 := by
                     rw [← hbT]; rfl
@@ -362,6 +471,7 @@ theorem instr_static (ctx : Ctx) : ∀ (i : EInstr) (s s' : St) (out : List MStm
                   have hEnext := hE.next
                   simp only [] at hEnext
                   refine Static.simple hw (by simp) (by simp; omega) (s.stack.length - 1) bt.toList (by omega) (by omega) ?_
+                    (Nat.le_trans hT.declMono (Nat.le_trans hE.declMono (St.endBlock_declLen_ge _ _ _ _))) (endBlock_decl _ _ _ _ hE.wf.decl)
                   simp [St.height, hmin, hEtake]
 end
 end W2c2Verif.Sim
